@@ -192,3 +192,17 @@ CHECKS["C10"] = {
         {"pkg": "revocation", "run": "TestVF_C10_Prepend", "shards": {"quick": 4, "thorough": 16}},
     ],
 }
+
+CHECKS["C13"] = {
+    "level": "exploration",
+    "exhaustive_claim": False,
+    "technique": "property-based testing (rapid) of completeness over true-by-construction statements (bound := factor*m - sign*delta) + exhaustive enumeration of every difference of three-square tables for both signs; oracle = proof creation succeeds, proof verifies (also after JSON round trip), library reports the requested statement as proven",
+    "level_text": "Statements are generated from a hidden attribute m, sign, factor 1..8 and a difference delta >= 0 drawn from a dense window at 0, 2^k+-1, 4^j(8i+7), values up to 2^256-1 (four squares) or every table entry 0..limit (three squares, factor 1), 1..3 statements per attribute on 1..2 attributes, toy/1024/2048-bit keys. Any creation error, rejection or Proves()==false is a violation.",
+    "level_note": "Documented limits used as preconditions: four squares delta < 2^256 (l_d = 128), three squares delta <= table limit and factor 1, factors <= 8, m < 2^Lm.",
+    "rule": ("case = one disclosure proof carrying 1..6 range proofs. Non-trivial: every case (all statements are true and within documented limits); classes record sign, splitter, factor>1, delta=0, delta in the top quarter of a table, delta >= 2^128; distinct by (key, m, statement list)."),
+    "assumptions": ["statements are true by construction (integer arithmetic in the generator)"],
+    "units": [
+        {"pkg": "root", "run": "TestVF_C13_Table", "shards": {"quick": 8, "thorough": 16}, "timeout": {"quick": 500, "thorough": 3400}},
+        {"pkg": "root", "run": "TestVF_C13_Random", "rapid": {"quick": 150, "thorough": 1500}, "shards": {"quick": 8, "thorough": 16}, "timeout": {"quick": 500, "thorough": 3400}},
+    ],
+}
